@@ -1,12 +1,17 @@
 (* Comparison function used by generated case files of the engine properties (C01, C02, C03, C13, C12). *)
-From Mage Require Import Base.Strs Model.Deps Model.DepsReplay.
+From Mage Require Import Base.Strs Model.Deps Model.DepsReplay Proof.Deps_progress.
 
 Record case := { c_prog : prog; c_obs : list oevent; c_logs : list (nat * nat); c_fuel : nat }.
 
-Definition check (c : case) : option verdict :=
+(* what is wrong with a case: the model does not accept the observed trace, or the program is not
+   acyclic (then the progress/termination theorems would not apply to it: a generator bug) *)
+Inductive problem := Rejected (v : verdict) | NotAcyclic.
+
+Definition check (c : case) : option problem :=
+  if negb (acyclicb (c_prog c)) then Some NotAcyclic else
   match accepts (c_prog c) (c_fuel c) (c_obs c) (c_logs c) with
   | Accepted => None
-  | v => Some v
+  | v => Some (Rejected v)
   end.
 
 Definition mismatches (l : list case) := mism_from check 0 l.
